@@ -17,8 +17,15 @@ def scratch_root() -> Path:
 
 class Tree:
     """A scratch directory tree: files given as {relative path: text}; text written byte-exactly."""
+    _count = 0
+    # where a scratch tree is placed below the scratch root: plainly, below a hidden directory, below directories whose
+    # names contain a dash / a blank / non-ASCII letters (uncommon but legal places for a namespace to live in)
+    PARENTS = ["", ".cache/dsdl", "third-party", "with space", "donn\u00e9es", ""]
     def __init__(self, files: dict, tag: str = "t"):
-        self.root = Path(tempfile.mkdtemp(prefix=tag + "-", dir=str(scratch_root())))
+        Tree._count += 1
+        parent = scratch_root() / Tree.PARENTS[Tree._count % len(Tree.PARENTS)]
+        parent.mkdir(parents=True, exist_ok=True)
+        self.root = Path(tempfile.mkdtemp(prefix=tag + "-", dir=str(parent)))
         for rel, text in files.items():
             p = self.root / rel
             p.parent.mkdir(parents=True, exist_ok=True)
